@@ -316,8 +316,16 @@ impl Scenario for WalletScenario {
                         if hi > lo && s.dirty_fork.is_none() {
                             ctx.op("queue_rescans");
                             // inside the queue's extent (an insertion beyond it is outside the documented use)
-                            let a = lo + ch.below("a", (hi - lo) as u64) as u32;
-                            let b = (a + 1 + ch.below("len", 40) as u32).min(hi);
+                            let mut a = lo + ch.below("a", (hi - lo) as u64) as u32;
+                            let mut b = (a + 1 + ch.below("len", 40) as u32).min(hi);
+                            // half of the time the range swallows a whole Scanned entry (and sticks out on both sides)
+                            let scanned_entries: Vec<(u32, u32)> = q.iter().filter(|e| e.2 == 10 && e.0 > base + 1 && e.1 < hi).map(|e| (e.0, e.1)).collect();
+                            if !scanned_entries.is_empty() && ch.chance("around_scanned_entry", 1, 2) {
+                                let e = scanned_entries[ch.idx("which_entry", scanned_entries.len())];
+                                a = e.0.saturating_sub(1 + ch.below("before", 3) as u32).max(lo).max(base + 1);
+                                b = (e.1 + 1 + ch.below("after", 3) as u32).min(hi);
+                                ctx.probe("rescan_range_swallows_a_scanned_entry");
+                            }
                             let prio = *ch.pick("prio", &[ScanPriority::Historic, ScanPriority::OpenAdjacent, ScanPriority::FoundNote, ScanPriority::ChainTip, ScanPriority::Verify, ScanPriority::Ignored]);
                             if a > base {
                                 match s.queue_rescan(a, b, prio, ctx, self.owns("queue"))? {
